@@ -44,6 +44,7 @@ type Ptr struct {
 	Arr    string     // pElem
 	Idx    string     // pElem, pElemStr
 	Src    *Val       // pElemStr: the byte string
+	Buf    bool       // pCell: the cell holds the contents of a byte buffer created by make([]byte, n)
 	Origin *Ptr       // pElemStr: location holding the byte array (for stores)
 	Slots  *[]Val     // statically tracked elements for varargs arrays
 	SlotIx int
@@ -113,6 +114,7 @@ type Obligation struct {
 	Ms      int64
 	Model   string
 	Output  string
+	NoSlice bool // include the whole theory (consistency check)
 	Static  bool // decided at generation time (census)
 	Aux     string
 }
@@ -579,7 +581,6 @@ const prelude = `(declare-sort Str 0)
 (declare-fun supd (Str Int Int) Str)
 (declare-fun byte1 (Int) Str)
 (declare-fun litid (Str) Int)
-(declare-fun isnil$ (Str) Bool)
 (declare-const empty$ Str)
 (declare-datatypes ((Slice 0)) (((mk$Slice (sarr Int) (soff Int) (slenS Int) (scap Int)))))
 (define-fun nilslice$ () Slice (mk$Slice 0 0 0 0))
@@ -600,21 +601,22 @@ func sortedKeys[V any](m map[string]V) []string {
 
 // strAxioms are included in a query only when their trigger symbol occurs in it.
 var strAxioms = []struct{ sym, ax string }{
-	{"", `(assert (and (= (slen empty$) 0) (isnil$ empty$)))`},
+	{"", `(assert (= (slen empty$) 0))`},
+	{"slen", `(assert (forall ((s Str)) (! (=> (= (slen s) 0) (= s empty$)) :pattern ((slen s)))))`},
+	{"cat", `(assert (forall ((a Str)) (! (= (cat a empty$) a) :pattern ((cat a empty$)))))`},
+	{"cat", `(assert (forall ((a Str)) (! (= (cat empty$ a) a) :pattern ((cat empty$ a)))))`},
 	{"maplen$", `(assert (forall ((m Int)) (! (>= (maplen$ m) 0) :pattern ((maplen$ m)))))`},
 	{"slen", `(assert (forall ((s Str)) (! (>= (slen s) 0) :pattern ((slen s)))))`},
 	{"cat", `(assert (forall ((a Str) (b Str)) (! (= (slen (cat a b)) (+ (slen a) (slen b))) :pattern ((cat a b)))))`},
 	{"zeros", `(assert (forall ((n Int)) (! (=> (>= n 0) (= (slen (zeros n)) n)) :pattern ((zeros n)))))`},
 	{"sub", `(assert (forall ((s Str) (i Int) (j Int)) (! (=> (and (<= 0 i) (<= i j) (<= j (slen s))) (= (slen (sub s i j)) (- j i))) :pattern ((sub s i j)))))`},
 	{"sub", `(assert (forall ((s Str)) (! (= (sub s 0 (slen s)) s) :pattern ((sub s 0 (slen s))))))`},
-	{"cat", `(assert (forall ((a Str)) (! (= (cat a empty$) a) :pattern ((cat a empty$)))))`},
-	{"cat", `(assert (forall ((a Str)) (! (= (cat empty$ a) a) :pattern ((cat empty$ a)))))`},
-	{"cat", `(assert (forall ((a Str) (b Str) (i Int)) (! (= (at (cat a b) i) (ite (< i (slen a)) (at a i) (at b (- i (slen a))))) :pattern ((at (cat a b) i)))))`},
+	{"cat", `(assert (forall ((a Str) (b Str) (i Int)) (! (=> (and (<= 0 i) (< i (+ (slen a) (slen b)))) (= (at (cat a b) i) (ite (< i (slen a)) (at a i) (at b (- i (slen a)))))) :pattern ((at (cat a b) i)))))`},
 	{"sub", `(assert (forall ((s Str) (lo Int) (hi Int) (i Int)) (! (=> (and (<= 0 lo) (<= lo hi) (<= hi (slen s)) (<= 0 i) (< i (- hi lo))) (= (at (sub s lo hi) i) (at s (+ lo i)))) :pattern ((at (sub s lo hi) i)))))`},
 	{"sub", `(assert (forall ((s Str) (a Int) (b Int) (c Int) (d Int)) (! (=> (and (<= 0 a) (<= a b) (<= b (slen s)) (<= 0 c) (<= c d) (<= d (- b a))) (= (sub (sub s a b) c d) (sub s (+ a c) (+ a d)))) :pattern ((sub (sub s a b) c d)))))`},
 	{"supd", `(assert (forall ((s Str) (i Int) (v Int)) (! (= (slen (supd s i v)) (slen s)) :pattern ((supd s i v)))))`},
-	{"supd", `(assert (forall ((s Str) (i Int) (v Int) (j Int)) (! (= (at (supd s i v) j) (ite (= j i) v (at s j))) :pattern ((at (supd s i v) j)))))`},
-	{"zeros", `(assert (forall ((n Int) (i Int)) (! (= (at (zeros n) i) 0) :pattern ((at (zeros n) i)))))`},
+	{"supd", `(assert (forall ((s Str) (i Int) (v Int) (j Int)) (! (=> (and (<= 0 i) (< i (slen s)) (<= 0 j) (< j (slen s))) (= (at (supd s i v) j) (ite (= j i) v (at s j)))) :pattern ((at (supd s i v) j)))))`},
+	{"zeros", `(assert (forall ((n Int) (i Int)) (! (=> (and (<= 0 i) (< i n)) (= (at (zeros n) i) 0)) :pattern ((at (zeros n) i)))))`},
 	{"byte1", `(assert (forall ((v Int)) (! (and (= (slen (byte1 v)) 1) (= (at (byte1 v) 0) (mod v 256))) :pattern ((byte1 v)))))`},
 	{"cat", `(assert (forall ((a Str) (b Str)) (! (= (sub (cat a b) 0 (slen a)) a) :pattern ((sub (cat a b) 0 (slen a))))))`},
 	{"cat", `(assert (forall ((a Str) (b Str) (c Str)) (! (= (cat (cat a b) c) (cat a (cat b c))) :pattern ((cat (cat a b) c)))))`},
